@@ -174,4 +174,9 @@ MODELS.insert(0, (re.compile(r"^(syn::punctuated::)?Punctuated::(push|push_value
 MODELS.insert(0, (re.compile(r"^(syn::punctuated::)?Punctuated::push_punct$"), lambda eng, m, g, a: UNIT))
 MODELS.insert(0, (re.compile(r"^(syn::punctuated::)?Punctuated::(pop)$"), lambda eng, m, g, a: (lambda it: some(Agg("Pair::End", [it.pop()])) if it else none())(deref(a[0]).items)))
 MODELS.insert(0, (re.compile(r"^<(syn::punctuated::)?Punctuated<.*> as Extend<.*>>::extend$"), lambda eng, m, g, a: (deref(a[0]).items.extend(drain(eng, as_iter(eng, a[1]))), UNIT)[1]))
-MODELS.insert(0, (re.compile(r"^<(syn::punctuated::)?Punctuated<.*> as FromIterator<.*>>::from_iter$"), lambda eng, m, g, a: PunctV(drain(eng, as_iter(eng, a[0])), "," if "Comma" in " ".join(g) else "::")))
+MODELS.insert(0, (re.compile(r"^<(syn::punctuated::)?Punctuated<.*> as FromIterator<.*>>::from_iter$"), lambda eng, m, g, a: PunctV(drain(eng, as_iter(eng, a[0])), "," if ("Comma" in " ".join(g) or "Comma" in m.group(0) or "Token![,]" in m.group(0)) else "::")))
+# `syn::Path::from(ident)` / `From<PathSegment>`: a single-segment path without a leading `::`
+def _path_from_ident(eng, m, g, a):
+    p = parse_kind("Path", [("i", deref(a[0]).name)])
+    return p
+MODELS.insert(0, (re.compile(r"^<(?:syn::)?Path as From<(?:proc_macro2::)?Ident>>::from$"), _path_from_ident))
